@@ -102,6 +102,25 @@ def Flags.on (f : Flags) : Nat → Bool
   | 3 => f.pprof
   | _ => false
 
+/-- `http:` section of the configuration as far as endpoint gating goes (config.go HTTPConfig):
+    `minimal`, and the three optional group flags (`none` = not set). -/
+structure HTTPCfg where
+  minimal : Bool
+  pprof : Option Bool
+  dashboard : Option Bool
+  remoteAPI : Option Bool
+  deriving Repr
+
+/-- Documented precedence ("Minimal mode … When true, overrides all other endpoint flags to false";
+    "All default to true"): PprofEnabled / DashboardEnabled / RemoteAPIEnabled, which agent.go copies
+    into health.ServerConfig. -/
+def groupEnabled (minimal : Bool) (flag : Option Bool) : Bool :=
+  if minimal then false else flag.getD true
+
+def flagsOfConfig (h : HTTPCfg) : Flags :=
+  { remote := groupEnabled h.minimal h.remoteAPI, dashboard := groupEnabled h.minimal h.dashboard,
+    pprof := groupEnabled h.minimal h.pprof }
+
 /-- The registrations NewServer performs under these flags. -/
 def active (f : Flags) : List Route := routes.filter (fun r => f.on r.grp == r.whenOn)
 
